@@ -40,7 +40,7 @@ def cases(tier, seed):
     for nt in (3, 4):
         for sch in ((2, 1, 2), (3, 1, 2), (3, 3, 1), (4, 2, 1)) if tier == 'quick' else ((2, 1, 2), (3, 1, 2), (3, 3, 1), (4, 2, 1), (3, 1, 2), (5, 5, 1)):
             out.append(('e3/nt=%d/%s' % (nt, 'x'.join(map(str, sch))), ('e3', nt, sch)))
-    for dsn in (['S2', 'S3u', 'S5'] if tier == 'quick' else ['S2', 'S2u', 'S3', 'S3u', 'S5', 'S8', 'R']):
+    for dsn in (['S2', 'S3u', 'S5'] if tier == 'quick' else data.THOROUGH):
         for name, bases in (('SCML', ['triplet_diffs', 'array']), ('SCML_Supervised', ['triplet_diffs', 'lda', 'array'])):
             for basis in bases:
                 for bi in range(len(BG)):
